@@ -268,6 +268,7 @@ func TestVerifMeta(t *testing.T) {
 		rc, _ := factory.VerifCounts()
 		out.Line(vs.M{"kind": "meta", "ctl": "composite", "case": i, "seed": seed, "events": events, "finalRefCount": rc})
 		hook.Close()
+		sim.Server.CloseClientConnections() // a leaked informer's watch must not keep Close() waiting
 		sim.Close()
 	}
 }
